@@ -1,5 +1,36 @@
 import Ptn.C12.Model
-/-! Line-protocol handler for the C12 model (core Lean only). -/
+import Ptn.C01.Driver
+/-! Line-protocol handler for the C12 model (core Lean only).  Request bodies as for C01.
+
+  basebonds   … → `<parent>-<child>:<vertices>` for every edge (child index order) of the uncompressed
+                  diagram, joined by ' ' ; `-` for a single-node tree
+  singlebonds … → the same for the single-term diagram of the first term -/
 namespace Ptn.C12
-def handle (args : List String) : String := "bad-op"
+open Ptn.C01
+
+def bondsStr (r : Req) (bs : List (Nat × Nat)) : String :=
+  let items := (List.range r.n).filterMap fun c =>
+    match bs.lookup c with
+    | some k => some s!"{r.par.getD c 0}-{c}:{k}"
+    | none => none
+  if items.isEmpty then "-" else " ".intercalate items
+
+def handle (args : List String) : String :=
+  match args with
+  | "basebonds" :: body =>
+    match parseReq body with
+    | some r =>
+      match baseBonds r.tree r.terms with
+      | some bs => bondsStr r bs
+      | none => "bad-op"
+    | none => "bad-op"
+  | "singlebonds" :: body =>
+    match parseReq body with
+    | some r =>
+      match r.terms with
+      | tm :: _ => bondsStr r (singleBonds r.tree tm)
+      | [] => "bad-op"
+    | none => "bad-op"
+  | _ => "bad-op"
+
 end Ptn.C12
